@@ -72,8 +72,8 @@ Definition cmp_then (c : comparison) (d : comparison) : comparison :=
 (** [Ord for Value] *)
 Fixpoint vcmp (a b : value) {struct a} : comparison :=
   match a, b with
-  | VInt x, VFloat y => ocmp (f_of_Z x) y
-  | VFloat x, VInt y => ocmp x (f_of_Z y)
+  | VInt x, VFloat y => cmp_int_float x y
+  | VFloat x, VInt y => CompOpp (cmp_int_float y x)
   | VFloat x, VFloat y => ocmp x y
   | VInt x, VInt y => Z.compare x y
   | VStr x, VStr y => str_cmp x y
